@@ -301,6 +301,20 @@ def rule_expansion(ctx, F):
             else:
                 ctx.violation(rule, f"{it.path}|SingleCardPair", "a card-pair token does not expand to (that pair, the token's weight)",
                               fn=it.path, file=it.file, line=it.blocks[bi]["line"])
+    # `vec![(card_pair, weight)]` instead of `iter::once(..).collect()`
+    for bi in sorted(it.cfg.reachable):
+        if it.blocks[bi]["term"]["k"] != "call" or it.blocks[bi]["term"]["callee"].get("name") != "box_assume_init_into_vec_unsafe":
+            continue
+        for s_ in it.blocks[bi]["stmts"]:
+            if s_["k"] == "assign" and "agg" in s_["rv"] and isinstance(s_["rv"]["agg"], dict) and "array" in s_["rv"]["agg"] \
+                    and f"({tokmodel.CARD_PAIR}, f32)" in s_["rv"]["agg"]["array"] and len(s_["rv"]["ops"]) == 1:
+                tup = P.strip(pr.operand(s_["rv"]["ops"][0]))
+                singles += 1
+                if tup[0] == "agg" and tup[1] == "tuple" and spec(tup[2][0]) == "<SingleCardPair>.0" and spec(tup[2][1]) == "weight":
+                    ctx.ok(rule, {"token": "SingleCardPair", "combo": "as given", "weight": "weight", "form": "vec![..]"}, sample=True)
+                else:
+                    ctx.violation(rule, f"{it.path}|SingleCardPair", "a card-pair token does not expand to (that pair, the token's weight)",
+                                  fn=it.path, file=it.file, line=s_["line"])
     if singles != 2:
         raise Unrecognised(rule, f"{singles} single-token arms recognised, expected 2", it.path, it.line)
     # the expansion must not look at the weight except to copy it: a branch on the weight drops or alters combos of
